@@ -51,7 +51,7 @@ C[5] = "module wrap\n  implicit none\ncontains\n  subroutine lonely()\n    use m
 CONTENT = {"a": A, "b": B, "c": C}
 
 
-def change_for(f, old_v, new_v):
+def change_for(f, old_v, new_v, CONTENT=CONTENT):
     """LSP content change taking variant old_v to new_v: a single-line ranged edit when they differ in one line."""
     a, b = CONTENT[f][old_v].split("\n"), CONTENT[f][new_v].split("\n")
     if len(a) == len(b):
@@ -62,6 +62,47 @@ def change_for(f, old_v, new_v):
     return {"text": CONTENT[f][new_v]}
 FN = {"a": "a.f90", "b": "b.f90", "c": "c.f90"}
 
+# ---- further worlds: other kinds of cross-file state the server keeps -------------------------------------
+# "pp": preprocessor state.  a (in gen/) defines a macro, b (in src/) tests it and #includes a header that only
+# exists next to a; nothing of a's may reach b (a fresh server parses each file from the configured pp_defs
+# and include_dirs only).
+PP = {
+    "a": {1: "module ma\n  implicit none\n  integer :: av\n  ! no macro yet\nend module ma\n",
+          2: "#define WITH_MPI\nmodule ma\n  implicit none\n  integer :: av\nend module ma\n"},
+    "b": {1: "#include \"config.h\"\nmodule mb\n  implicit none\n#ifdef WITH_MPI\n  integer :: mpi_rank\n#endif\n#ifdef HAVE_X\n  integer :: x_only\n#endif\n  integer :: always\nend module mb\n",
+          2: "#include \"config.h\"\nmodule mb\n  implicit none\n#ifdef WITH_MPI\n  integer :: mpi_rank\n#endif\n#ifdef HAVE_X\n  integer :: x_only\n#endif\n  integer :: always\n  ! touched\nend module mb\n"},
+    "c": {1: "program pc\n  use mb\n  implicit none\n  always = 1\n  mpi_rank = 2\n  x_only = 3\nend program pc\n",
+          2: "program pc\n  use mb\n  use ma\n  implicit none\n  always = 1\n  mpi_rank = 2\n  x_only = 3\n  av = 4\nend program pc\n"},
+}
+# "links": a module that two files define for a while, a submodule's parent, the target of a type-bound procedure
+LK = {
+    "a": {1: "module pm\n  implicit none\n  integer :: parent_var\n  interface\n    module subroutine work(k)\n      integer, intent(in) :: k\n    end subroutine work\n  end interface\ncontains\n  subroutine helper_impl(n, scale)\n    integer, intent(in) :: n\n    real, intent(in) :: scale\n  end subroutine helper_impl\nend module pm\n",
+          2: "module pm_renamed\n  implicit none\n  integer :: parent_var\ncontains\n  subroutine helper_other(n)\n    integer, intent(in) :: n\n  end subroutine helper_other\nend module pm_renamed\n"},
+    "b": {1: "module mb\n  use pm\n  implicit none\n  type :: tt\n  contains\n    procedure, nopass :: helper => helper_impl\n  end type tt\nend module mb\nsubmodule (pm) sm\n  implicit none\ncontains\n  module subroutine work(k)\n    integer, intent(in) :: k\n    parent_var = k\n  end subroutine work\nend submodule sm\n",
+          2: "module mb\n  implicit none\n  integer :: plain\nend module mb\n"},
+    # c becomes a second definition of module pm for a while ("save as" under another name), then is renamed back
+    "c": {1: "module pm_copy\n  implicit none\n  integer :: copy_var\nend module pm_copy\n",
+          2: "module pm\n  implicit none\n  integer :: parent_var\n  interface\n    module subroutine work(k)\n      integer, intent(in) :: k\n    end subroutine work\n  end interface\ncontains\n  subroutine helper_impl(n, scale)\n    integer, intent(in) :: n\n    real, intent(in) :: scale\n  end subroutine helper_impl\nend module pm\n"},
+}
+LK_EXTRA = {"z_user.f90": "program user\n  use mb\n  use pm, only: parent_var\n  implicit none\n  type(tt) :: obj\n  call obj%helper(1, 2.0)\n  parent_var = 1\nend program user\n"}
+# "inc": entities grafted into a scope by INCLUDE
+INC = {
+    "a": {1: "integer :: nvals\nreal :: scale_factor\n", 2: "! integer :: nvals\n! real :: scale_factor\n"},
+    "b": {1: "program main\n  implicit none\n  include 'a.f90'\n  nvals = 1\n  scale_factor = 2.0\nend program main\n",
+          2: "program main\n  implicit none\n  include 'a.f90'\n  nvals = 1\n  scale_factor = 2.0\n  ! touched\nend program main\n"},
+    # (one includer only: a file included by several hosts has ONE none_scope redirect by design)
+    "c": {1: "subroutine other()\n  implicit none\n  integer :: nvals\n  nvals = 3\nend subroutine other\n",
+          2: "subroutine other()\n  implicit none\n  integer :: nvals, scale_factor\n  nvals = 3\n  scale_factor = 1\nend subroutine other\n"},
+}
+# states in which the files themselves are ambiguous (two files define the same module): no requirement
+AMBIGUOUS = {"links": lambda disk: disk["a"] == 1 and disk["c"] == 2}
+WORLDS = {
+    "types": (FN, CONTENT, {}),
+    "pp": ({"a": "gen/a.F90", "b": "src/b.F90", "c": "c.f90"}, PP, {"gen/config.h": "#define HAVE_X 1\n"}),
+    "links": (FN, LK, LK_EXTRA),
+    "inc": (FN, INC, {}),
+}
+
 
 def battery(s, c, d):
     """All answers of a server, normalised (workspace prefix stripped, lists sorted)."""
@@ -69,7 +110,7 @@ def battery(s, c, d):
 
     def norm(x):
         return json.loads(json.dumps(x).replace(adapter.path_to_uri(d), "ROOT").replace(d, "ROOT"))
-    files = sorted(f for f in os.listdir(d) if f.endswith(".f90"))
+    files = sorted(os.path.relpath(os.path.join(r, f), d) for r, _ds, fs in os.walk(d) for f in fs if f.lower().endswith(".f90"))
     ws = adapter.result_of(adapter.request(s, c, "workspace/symbol", {"query": ""}))
     out["wsym"] = sorted(json.dumps(norm(x), sort_keys=True) for x in (ws or []))
     for f in files:
@@ -108,9 +149,12 @@ def fresh_battery(d):
         shutil.rmtree(d2, ignore_errors=True)
 
 
-def replay_history(hist):
+def replay_history(hist, world="types"):
     """Returns list of (step index, differing keys, sample) for quiescent states where long-lived != fresh."""
-    d = adapter.mkws({FN[f]: CONTENT[f][1] for f in FN})
+    if isinstance(hist, dict):
+        hist, world = hist["hist"], hist["world"]
+    FN, CONTENT, extra = WORLDS[world]
+    d = adapter.mkws(dict(extra, **{FN[f]: CONTENT[f][1] for f in FN}))
     out = []
     try:
         s, c = adapter.mkserver(d)
@@ -125,7 +169,7 @@ def replay_history(hist):
                 opened[f] = True
                 buf[f] = disk[f]
             elif e == "edit":
-                adapter.notify(s, c, "textDocument/didChange", {"textDocument": {"uri": adapter.uri(d, FN[f])}, "contentChanges": [change_for(f, buf[f], ev["v"])]})
+                adapter.notify(s, c, "textDocument/didChange", {"textDocument": {"uri": adapter.uri(d, FN[f])}, "contentChanges": [change_for(f, buf[f], ev["v"], CONTENT)]})
                 buf[f] = ev["v"]
                 dirty[f] = True
             elif e == "save":
@@ -154,7 +198,7 @@ def replay_history(hist):
             if e in ("delete", "create", "open"):
                 dirty[f] = False
             quiescent = all((not opened[f]) or (buf[f] == disk[f] and not dirty[f]) for f in FN)
-            if quiescent and (e != "query"):
+            if quiescent and (e != "query") and not AMBIGUOUS.get(world, lambda d: False)(disk):
                 live = battery(s, c, d)
                 fresh = fresh_battery(d)
                 if live != fresh:
@@ -185,7 +229,7 @@ def tags_for(hist, i, keys):
 def main(tier, seed):
     ck = Check("C10", tier, seed)
     ck.assumptions = [
-        "three files with three content variants each, chosen so that other files depend on what changes (type components, EXTENDS parent, module name, generic interface, USE)",
+        "four worlds of three files with content variants, chosen so that other files depend on what changes: types (components, EXTENDS parent, module name, generic interface, USE), pp (a macro defined in one file and tested in another, a header next to one file and #included by another), links (a module two files define for a while, a submodule's parent, the target of a type-bound procedure), inc (entities grafted by INCLUDE)",
         "a file that appears on disk is announced by didOpen (fortls ignores workspace/didChangeWatchedFiles, so an unopened new file is invisible by construction)",
         "answers are compared after normalising list order and the workspace path; the fresh server runs on a copy of the directory",
     ]
@@ -223,14 +267,43 @@ def main(tier, seed):
         rnd.shuffle(ex)
         hists = ex[:580] + sim
     ck.note("histories", len(hists))
-    for i, status, val in par.pmap(replay_history, hists, item_timeout=300):
-        ck.count(key=json.dumps(hists[i], sort_keys=True))
+    jobs = [{"world": "types", "hist": h} for h in hists]
+    # the other worlds (preprocessor state, links to modules/submodule parents/binding targets, INCLUDE grafts):
+    # every history of <= 4 (5) events over two variants, sampled, plus the simulated ones restricted to variants 1/2
+    info = {}
+    h3 = [st["hist"] for st in tlc.dump_states("Workspace", "Workspace_Gen3_%s.cfg" % tier, info=info, timeout=1800) if st["hist"] and st["hist"][-1]["e"] != "query"]
+    ck.add_tlc("Workspace_Gen3", info["result"])
+    m3 = max(len(h) for h in h3)
+    h3 = [h for h in h3 if len(h) >= m3 - 1]
+    sim12 = [h for h in hists[-nsim:] if all(ev.get("v", 1) in (1, 2) for ev in h)]
+    for w in ("pp", "links", "inc"):
+        pick = list(h3)
+        rnd.shuffle(pick)
+        for h in pick[: (170 if tier == "quick" else 4000)] + sim12:
+            jobs.append({"world": w, "hist": h})
+    # preprocessor state needs longer histories (one file is edited, ANOTHER one re-parsed and saved): all histories
+    # of 6 events over the two files a, b that edit both and end in a save
+    info = {}
+    h4 = []
+    for st in tlc.dump_states("Workspace", "Workspace_Gen4_%s.cfg" % tier, info=info, timeout=1800, prefilter=lambda t: t.count("e |->") == 6):
+        h = st["hist"]
+        es = [(e["e"], e.get("f")) for e in h]
+        if h[-1]["e"] == "save" and ("edit", "a") in es and ("edit", "b") in es:
+            h4.append(h)
+    ck.add_tlc("Workspace_Gen4", info["result"])
+    rnd.shuffle(h4)
+    for h in h4[: (150 if tier == "quick" else 10 ** 6)]:
+        jobs.append({"world": "pp", "hist": h})
+    ck.note("histories_by_world", {w: sum(1 for j in jobs if j["world"] == w) for w in WORLDS})
+    for i, status, val in par.pmap(replay_history, jobs, item_timeout=300):
+        ck.count(key=json.dumps(jobs[i], sort_keys=True))
+        wtag = set() if jobs[i]["world"] == "types" else {"world:" + jobs[i]["world"]}
         if status != "done":
-            ck.violation({"replay:" + status}, {"kind": "history", "hist": hists[i], "detail": val})
+            ck.violation({"replay:" + status} | wtag, {"kind": "history", "world": jobs[i]["world"], "hist": jobs[i]["hist"], "detail": val})
             continue
         ck.traces += 1
         for step, keys, sample in val:
-            ck.violation(tags_for(hists[i], step, keys), {"kind": "history", "hist": hists[i], "first_divergent_step": step, "differing_answers": keys[:40], "sample": sample})
+            ck.violation(tags_for(jobs[i]["hist"], step, keys) | wtag, {"kind": "history", "world": jobs[i]["world"], "hist": jobs[i]["hist"], "first_divergent_step": step, "differing_answers": keys[:40], "sample": sample})
     for h in hists[:: max(1, len(hists) // 3)][:3]:
         ck.sample(h)
     return ck.finish()
@@ -238,6 +311,6 @@ def main(tier, seed):
 
 def replay(path):
     rec = json.load(open(path))
-    res = replay_history(rec["hist"])
+    res = replay_history(rec["hist"], rec.get("world", "types"))
     print(json.dumps(res, indent=1)[:3000])
     return 1 if res else 0
